@@ -24,5 +24,5 @@
 (define-fun-rec sumValues ((va (Array Int T_note_Value)) (off Int) (n Int)) Real
   (ite (<= n 0) 0.0
     (+ (sumValues va off (- n 1))
-       (/ (to_real (T_util_Rat_Num (T_note_Value_Rat (select va (+ off (- n 1))))))
-          (to_real (T_util_Rat_Denom (T_note_Value_Rat (select va (+ off (- n 1))))))))))
+       (real_div (to_real (T_util_Rat_Num (T_note_Value_Rat (select va (+ off (- n 1))))))
+                 (to_real (T_util_Rat_Denom (T_note_Value_Rat (select va (+ off (- n 1))))))))))
